@@ -280,7 +280,8 @@ def deviceResponse : Cbor → Bool
   | .map m => onlyKeys [tx "version", tx "documents", tx "documentErrors", tx "status"] m &&
     req (tx "version") (isTextEq "1.0") m &&
     opt (tx "documents") (arrayOf document true) m &&
-    opt (tx "documentErrors") (arrayOf (mapOf isText errorCode true) true) m &&
+    -- DocumentError = { DocType => ErrorCode }: ONE entry per array element
+    opt (tx "documentErrors") (arrayOf (fun e => mapOf isText errorCode true e && (match e with | .map [_] => true | _ => false)) true) m &&
     req (tx "status") responseStatus m
   | _ => false
 
